@@ -17,6 +17,7 @@ import (
 //	op 3  Normal Rand:   Mu, Sigma, Seed, N
 //	op 4  TDist grid:    V, Xs
 //	op 5  DeltaDist:     T (=Mu), Xs = points, Ys = probabilities
+//	op 6  monotonicity scan of a CDF (hb_scan.go): Fn, Mu/Sigma or V, [Lo,Hi] in N cells
 type c05Case struct {
 	Op    int   `json:"op"`
 	Mu    F64   `json:"mu,omitempty"`
@@ -26,6 +27,9 @@ type c05Case struct {
 	N     int   `json:"n,omitempty"`
 	Xs    []F64 `json:"xs,omitempty"`
 	Ys    []F64 `json:"ys,omitempty"`
+	Fn    int   `json:"fn,omitempty"` // op 6: 1 NormalDist.CDF, 2 TDist.CDF
+	Lo    F64   `json:"lo,omitempty"` // op 6: scan range and number of cells (N)
+	Hi    F64   `json:"hi,omitempty"`
 }
 
 // PDF/CDF grid with Gauss-Legendre consistency between neighbours
@@ -114,6 +118,33 @@ func c05Run(raw []byte) (*Line, error) {
 		for _, yf := range c.Ys {
 			y := float64(yf)
 			l.F(y).F(d.InvCDF(y))
+		}
+	case 6:
+		lo, hi := float64(c.Lo), float64(c.Hi)
+		if !finite(lo) || !finite(hi) || !(lo < hi) || c.N < 8 || c.N > 2000000 {
+			return nil, fmt.Errorf("bad scan range")
+		}
+		var f func(float64) float64
+		var p1, p2 float64
+		switch c.Fn {
+		case 1:
+			if !finite(mu) || !finite(sigma) || !(sigma > 0) {
+				return nil, fmt.Errorf("need finite mu and sigma > 0")
+			}
+			f, p1, p2 = stats.NormalDist{Mu: mu, Sigma: sigma}.CDF, mu, sigma
+		case 2:
+			v := float64(c.V)
+			if !finite(v) || !(v > 0) {
+				return nil, fmt.Errorf("need V > 0")
+			}
+			f, p1, p2 = stats.TDist{V: v}.CDF, v, 0
+		default:
+			return nil, fmt.Errorf("bad fn")
+		}
+		pairs := monoScan(f, lo, hi, c.N, 1, 4)
+		l.I(c.Fn).F(p1).F(p2).F(lo).F(hi).I(c.N).I(len(pairs))
+		for _, p := range pairs {
+			l.F(p.Lo).F(p.Hi).F(p.FLo).F(p.FHi)
 		}
 	default:
 		return nil, fmt.Errorf("bad op")
@@ -264,6 +295,35 @@ func c05Gen(tier string, rng *rand.Rand, emit func(interface{})) {
 			v = math.Exp(math.Log(0.1) + rng.Float64()*math.Log(1e5))
 		}
 		emit(c05Case{Op: 4, V: F64(v), Xs: c05TGrid(rng, v, it%5 == 0)})
+	}
+	// ---- TDist: dense deterministic sweep of V (every quarter up to 1000, then a log grid to 1e4)
+	//      on a short symmetric grid: PDF finite and >= 0, symmetric, CDF laws, PDF vs CDF by quadrature
+	sweepXs := []F64{-3, -1, -0.25, 0, 0.25, 1, 3}
+	for k := 1; k <= 4000; k++ {
+		emit(c05Case{Op: 4, V: F64(float64(k) / 4), Xs: sweepXs})
+	}
+	for j := 0; j <= 200; j++ {
+		v := 1000 * math.Pow(10, float64(j)/200)
+		if j == 200 {
+			v = 1e4
+		}
+		emit(c05Case{Op: 4, V: F64(v), Xs: sweepXs})
+	}
+	// ---- monotonicity scans (discontinuity hunt, hb_scan.go)
+	cells := 300000
+	emit(c05Case{Op: 6, Fn: 1, Mu: 0, Sigma: 1, Lo: -9, Hi: 9, N: cells})
+	scanVs := []float64{0.6, 3.7, 250, 343.3, 1000, 1e4}
+	if thorough {
+		cells = 1500000
+		scanVs = append(scanVs, 0.1, 1, 2, 30.5, 120, 201, 500.25, 2500, 5000.5)
+		for i := 0; i < 12; i++ {
+			scanVs = append(scanVs, math.Exp(math.Log(0.1)+rng.Float64()*math.Log(1e5)))
+		}
+		mu, sigma := c05MuSigma(rng, 1)
+		emit(c05Case{Op: 6, Fn: 1, Mu: F64(mu), Sigma: F64(sigma), Lo: F64(mu - 9*sigma), Hi: F64(mu + 9*sigma), N: cells})
+	}
+	for _, v := range scanVs {
+		emit(c05Case{Op: 6, Fn: 2, V: F64(v), Lo: -6, Hi: 6, N: cells})
 	}
 	// ---- DeltaDist
 	ys := []F64{0, F64(math.Copysign(0, -1)), 0.25, 0.5, 1, -0.5, 1.5, F64(-5e-324), F64(math.Nextafter(1, 2)), F64(math.Inf(1)), F64(math.Inf(-1)), F64(math.NaN())}
